@@ -60,7 +60,8 @@ def mc1(ctx, ctx0):
     ctx0.cov["mc_transitions"] = r.generated
     # sanity of the model (thorough): each design switch off must break its invariant
     for sw, inv in () if ctx0.quick() else (("CarryDesc", ("StreamInSync", "ImplRefines")), ("CloseOnReject", ("LedgerBalanced",)),
-                    ("RejectCtrunc", ("ImplRefines",)), ("AbsorbDesc", ("StreamInSync", "ImplRefines"))):
+                    ("RejectCtrunc", ("ImplRefines",)), ("AbsorbDesc", ("StreamInSync", "ImplRefines")),
+                    ("ValueHandover", ("DeliveredImmutable",))):
         bad = cfg.replace("%s = TRUE" % sw, "%s = FALSE" % sw)
         b = ctx.tlc("Socket_MC", cfg=bad + "\n", workers=2, timeout=600)
         if b.invariant not in inv:
@@ -68,7 +69,8 @@ def mc1(ctx, ctx0):
     ctx0.cov["model_detects"] = ["descriptors dropped with a refused message -> StreamInSync",
                                 "descriptors of a refused message not closed -> LedgerBalanced",
                                 "MSG_CTRUNC ignored (receiver short of descriptor slots) -> ImplRefines",
-                                "descriptors in a packet dropped for MSG_CTRUNC never reach the decoder -> StreamInSync"]
+                                "descriptors in a packet dropped for MSG_CTRUNC never reach the decoder -> StreamInSync",
+                                "delivered messages alias per-socket storage -> DeliveredImmutable"]
 
 
 def describe(tr, i):
@@ -79,9 +81,11 @@ def describe(tr, i):
         return "send #%d len=%d val=%d nfds=%d cred=%s typ=%s -> err=%r fdd=%d" % (
             e["id"], e["len"], e["val"], e["nfds"], e["cred"], e["typ"], e["err"], e["fdd"])
     if e["op"] == "recv":
-        return ("free=%d " % e["free"] if e.get("free", -1) >= 0 else "") + "recv rbuf=%d want=%s -> err=%r n=%d mids=%s handed=%d fdd=%d cloexec=%d/%d same=%d/%d cred=%s" % (
-            e["rbuf"], e["want"], e["err"], e["n"], e["mids"], e["handed"], e["fdd"], e["nce"], e["handed"],
-            e["nsame"], e["handed"], e["cred"])
+        return ("free=%d " % e["free"] if e.get("free", -1) >= 0 else "") + "recv rbuf=%d want=%s -> err=%r n=%d mids=%s handed=%d fdd=%d" % (
+            e["rbuf"], e["want"], e["err"], e["n"], e["mids"], e["handed"], e["fdd"])
+    if e["op"] == "inspect":
+        return "inspect delivered message #%d -> files=%s cloexec=%d same=%d cred=%s" % (
+            e["j"], e["rfidx"][:8], e["nce"], e["nsame"], e["cred"])
     return "probe empty=%s" % e["empty"]
 
 
@@ -130,6 +134,7 @@ def run(ctx):
         "kernel: SCM_MAX_FD = 253; a SEQPACKET message longer than the receive buffer is dropped with MSG_TRUNC after its descriptors were installed",
         "we are root: forged SCM_CREDENTIALS (pid 1, uid 4242, gid 4343) are accepted; credentials are delivered only with SO_PASSCRED on the receiving end (then the sender's own when none were specified)",
         "Go runtime latitude (not go-sandbox code): an empty payload with control data travels as one zero byte; an empty payload without control data is reported as EOF by net.UnixConn",
+        "a delivered message is immutable: the driver keeps every Msg exactly as RecvMsg returned it and looks at it right away, after the following receive, or after the whole sequence (per case); identity/order/cloexec/credentials are judged at that moment",
         "receive buffers of at least one byte; at most two 64 KiB messages in flight (socket send buffer)",
         "descriptor-table pressure: the soft RLIMIT_NOFILE of a dedicated driver process is lowered around the receive so that exactly `free` descriptor numbers are unused; the kernel then installs the first `free` descriptors and sets MSG_CTRUNC",
         "framed layer: a value message between Cap - descriptors and Cap may be accepted or refused at the property layer (implementation layer predicts exactly -> drift)",
@@ -178,8 +183,8 @@ def execute(ctx, cases):
 def validate(ctx, m, traces):
     """TLC replays the traces (several TLC processes side by side, each -workers 1)"""
     n = min(SHARDS, max(1, len(traces) // 200))
-    cfg = consts(m, CarryDesc="TRUE", CloseOnReject="TRUE", RejectCtrunc="TRUE", AbsorbDesc="TRUE") + \
-        "SPECIFICATION TSpec\nINVARIANTS InOrder Whole LedgerBalanced\nCONSTRAINT Mark\nPOSTCONDITION Report\nCHECK_DEADLOCK FALSE\n"
+    cfg = consts(m, CarryDesc="TRUE", CloseOnReject="TRUE", RejectCtrunc="TRUE", AbsorbDesc="TRUE", ValueHandover="TRUE") + \
+        "SPECIFICATION TSpec\nINVARIANTS InOrder Whole LedgerBalanced DeliveredImmutable\nCONSTRAINT Mark\nPOSTCONDITION Report\nCHECK_DEADLOCK FALSE\n"
     res, errs = [None] * n, []
 
     def work(k):
@@ -235,7 +240,7 @@ def judge(ctx, cases, traces, bad, drift):
     hist = {}
     for t in traces:
         for e in t["ev"]:
-            if e["op"] == "probe":
+            if e["op"] in ("probe", "inspect"):
                 continue
             k = "%s.%s.%s" % (t["layer"], e["op"], e["errc"] or "ok")
             hist[k] = hist.get(k, 0) + 1
